@@ -21,7 +21,7 @@ def vacuity(by_kind, by_outcome, extra, by_class):
 def run(tier):
     if tier == 'quick':
         fh = HMixed(max_list=1, meta_subsets=1, story_L=1)
-        parts = [{'label': 'K;E', 'harness': HMixed(max_list=1, story_L=1, meta_subsets=1, layouts=('before',)),
+        parts = [{'label': 'K;E', 'harness': HMixed(max_list=1, story_L=2, meta_subsets=1, layouts=('before',)),
                   'monitors': [Independence(fh, per_kind=2)], 'opts': {'max_depth': 0}}]
     else:
         fh = HMixed(max_list=1, meta_subsets=1, story_L=1)
